@@ -88,8 +88,8 @@ theorem good (wf : Bool) : GoodTrips (toyPP wf) (trips wf) := by
   simp only [trips, polyStComm, polys, sts, comms, List.map_cons, List.map_nil, List.zip_cons_cons,
     List.zip_nil_right, List.mem_cons, List.not_mem_nil, or_false] at ht
   rcases ht with rfl | rfl
-  · exact ⟨toyE, 4, toy_encodes wf _, rfl, rfl⟩
-  · exact ⟨toyE, 4, toy_encodes wf _, rfl, rfl⟩
+  · exact ⟨toyE, 4, toy_encodes wf _ (by simp), rfl, rfl⟩
+  · exact ⟨toyE, 4, toy_encodes wf _ (by simp), rfl, rfl⟩
 
 set_option maxRecDepth 8000 in
 theorem prover_eq : proverOut = .ok (histProofs, histLog) := by decide
